@@ -133,7 +133,7 @@ def run(ctx):
             pk = strip_sites(vp[0].args[0])
             ok_pk = pk.op == "call" and B.cname(pk) == "Mul::mul" and B.peel(pk.a[1][0]).op == "call" and B.cname(B.peel(pk.a[1][0])) == "Group::generator" and B.peel(pk.a[1][1]).op == "param" and B.peel(pk.a[1][1]).a[1] == "sk"
             rest = [B.peel(strip_sites(a)).a[1] if B.peel(strip_sites(a)).op == "param" else None for a in vp[0].args[1:]]
-            lits = G.path_literals(ev, dc[0].bb, None)
+            lits = G.path_literals(ev, dc[0].bb, None, checks_only=True)
             dom = any(a[1] == "switch" and any(t.op == "call" and B.cname(t) == "BlsElGamal::verify_proof" for t in subterms(a[2])) and a[3] == 0 for a, p in lits)
             dargs = [B.peel(strip_sites(a)).a[1] if B.peel(strip_sites(a)).op == "param" else None for a in dc[0].args]
             ok = ok_pk and rest == ["generator", "c1", "c2", "message_proof", "blinder_proof", "challenge"] and dom and dargs == ["sk", "c1", "c2"]
@@ -190,6 +190,10 @@ def run(ctx):
         x, steps = F.image_source(P, f, ev, sites[0].args[0]) if sites else (None, "no combine call")
         ctx.ob("E6.combine", fk, x is not None and x.op == "param" and x.a[1] == "shares", "core_combine_public_key_shares receives a 1:1 image of the whole `shares` list (%s)" % (steps,), where=where(f))
         F.check_order_insensitive(ctx, "E4.set-order", P, (fk, "BlsSignatureCore::core_combine_public_key_shares"))
+    # decryption of any honest ciphertext or homomorphic sum returns (a sum may well decrypt to the identity: 1 + (r-1))
+    from . import aborts as A
+
+    A.check_aborts(ctx, "E8", P, ["ElGamalCiphertext<C>::decrypt", "ElGamalProof<C>::verify_and_decrypt", "ElGamalProof<C>::verify", "ElGamalDecryptionKey<C>::decrypt", "<ElGamalCiphertext<C> as Add>::add"], scope="C14")
     # field-wise homomorphism
     adds = [f for f in P.fns.values() if f.impl_trait in ("Add", "AddAssign") and "ElGamalCiphertext" in (f.impl_self or "") and f.name in ("add", "add_assign")]
     ctx.floor("E6.homomorphic", "Add/AddAssign impls of ElGamalCiphertext", len(adds), 6)
